@@ -263,7 +263,34 @@ func (w *recorder) Write(p []byte) (int, error) {
 }
 
 func (r *runner) livelock() {
-	r.hang("livelock", nil)
+	// keep what is needed to understand a runaway render loop: where every
+	// goroutine is, how many cycles ran, and the last chunks
+	gs := relevant(Snapshot())
+	r.abortOnce.Do(func() {
+		st, _ := r.curStep.Load().(string)
+		where := Summary(gs)
+		where = append(where, fmt.Sprintf("cycles=%d rendEnd=%d framesAfterSteps=%d cap=%d", r.cycle.Load(), r.rendEnd.Load(), r.framesAfterSteps.Load(), r.frameCap))
+		if r.rec != nil {
+			// the caller holds no recorder lock here
+			r.rec.mu.Lock()
+			n := len(r.rec.chunks)
+			for i := n - 3; i < n; i++ {
+				if i >= 0 {
+					d := r.rec.chunks[i].Data
+					if len(d) > 160 {
+						d = d[:160]
+					}
+					where = append(where, fmt.Sprintf("chunk[%d]=%q", i, d))
+				}
+			}
+			r.rec.mu.Unlock()
+		}
+		r.mu.Lock()
+		r.tr.Hang = &Hang{Kind: "livelock", Where: where, AtStep: st, Goroutines: len(gs)}
+		r.mu.Unlock()
+		close(r.abort)
+		r.cancel()
+	})
 }
 
 func (r *runner) hang(kind string, gs []G) {
@@ -695,6 +722,12 @@ func Run(sc *Scenario, opt Options) *Trace {
 	if sc.Cfg.Refresh == "autort" {
 		r.frameCap += 4000 // a real ticker draws frames for as long as the program runs
 	}
+	if sc.Cfg.Refresh == "autoinj" {
+		// the harness keeps offering ticks (one per 100 us) until Wait has returned;
+		// a starved waiter must not look like a runaway render loop, which draws
+		// tens of thousands of frames per second
+		r.frameCap += 3000
+	}
 	r.curStep.Store("setup")
 	mpb.SetVerifHook(r.hook)
 	decor.SetVerifHook(func(point string, n int) { r.hook(point, n, nil) })
@@ -989,6 +1022,17 @@ pump:
 					return
 				}
 				break pump
+			}
+			// Do not tick in a tight loop: the goroutines handing a tick around wake
+			// each other through the scheduler's run-next slot and can keep every
+			// other goroutine (the one returning from Wait included) off a single P
+			// for a whole time slice, during which hundreds of frames would be drawn.
+			select {
+			case <-waitDone:
+				break pump
+			case <-r.abort:
+				return
+			case <-time.After(100 * time.Microsecond):
 			}
 		} else {
 			select {
@@ -1359,6 +1403,13 @@ func (r *runner) runStepC(st *Step, idx, depth, client int) {
 						case <-r.abort:
 						}
 						return
+					}
+					select {
+					case <-done:
+						return
+					case <-r.abort:
+						return
+					case <-time.After(100 * time.Microsecond):
 					}
 				} else {
 					select {
